@@ -59,7 +59,8 @@ typedef vf::Ctx<Cfg> Ctx;
 using vf::nd8; using vf::Elem; using vf::Seq;
 
 // static facts the harness relies on: a trait change cannot silently re-route a check
-static_assert(amc::is_trivially_relocatable<vf::R>::value && !amc::is_trivially_relocatable<vf::X>::value, "element traits");
+static_assert(amc::is_trivially_relocatable<vf::R>::value && !amc::is_trivially_relocatable<vf::X>::value && !amc::is_trivially_relocatable<vf::Y>::value, "element traits");
+static_assert(std::is_nothrow_copy_constructible<vf::Y>::value && std::is_nothrow_copy_assignable<vf::Y>::value && !std::is_nothrow_copy_constructible<vf::X>::value, "copy exception specifications select the insertion path");
 static_assert(amc::is_trivially_relocatable<vf::B>::value && amc::is_trivially_relocatable<vf::T3>::value, "element traits");
 
 // For a FixedCapacityVector an operation whose result exceeds N must throw std::out_of_range and change nothing (C08);
